@@ -40,6 +40,7 @@ CONSTANTS
     Variant,    \* [literal -> [upper |-> .., enc |-> ..]] other spellings of literal segments
     EffectOf,   \* [operationId -> observable effect label]
     Methods, Spellings, MaxSpell,
+    HdrCross,   \* TRUE: the header classes below are crossed with the documented spelling of every template
     ValidatorOn \* TRUE = the code (setupAPIRouter installs OapiRequestValidator first); FALSE = named
                 \*   alternative without it, used only for the binding self-check of the later stages
 
@@ -115,6 +116,28 @@ JoinSlash(ss) == IF ss = <<>> THEN "" ELSE "/" \o ss[1] \o JoinSlash(Tail(ss))
 Target(p) == JoinSlash(RawSegs(p)) \o (IF p.q THEN "?x=1" ELSE "")
 
 (***************************************************************************)
+(* Request headers and body.  h = [accept, ctype, override, body]; "-" =   *)
+(* header absent; body = a valid DecryptionTrigger JSON document is sent   *)
+(* (on every method, also GET / HEAD).                                     *)
+(* What the CODE does with them: nothing in the pipeline reads Accept or   *)
+(* X-HTTP-Method-Override (chi routes on r.Method only; ConfigMiddleware   *)
+(* reads r.URL.Path and r.Method only and answers refusals as plain text   *)
+(* whatever the client accepts).  Content-Type and the presence of a body  *)
+(* are read by the request validator only, and only for operations that    *)
+(* declare a request body (openapi3filter.ValidateRequestBody: empty body  *)
+(* of a required body, or a media type the operation does not list -> 400).*)
+(***************************************************************************)
+Absent == "-"
+Accepts == {Absent, "*/*", "text/plain", "application/json", "application/json, text/plain, */*"}
+Ctypes == {"application/json", Absent, "text/plain", "application/json; charset=utf-8"}
+Overrides == {Absent, "POST"}
+HdrClasses == [accept : Accepts, ctype : Ctypes, override : Overrides, body : BOOLEAN]
+\* what every case of the spelling domain is sent with
+DefaultHdr == [accept |-> Absent, ctype |-> "application/json", override |-> Absent, body |-> TRUE]
+\* requestBody.Content.Get(Content-Type): the media type without parameters must be listed
+JsonCtypes == {"application/json", "application/json; charset=utf-8"}
+
+(***************************************************************************)
 (* Responses                                                               *)
 (*  status 0 / bk "*" = not determined by this model (handlers that read   *)
 (*  the database answer according to its content)                          *)
@@ -126,9 +149,9 @@ NoOp == [path |-> "", method |-> "", op |-> "", ro |-> "absent", params |-> <<>>
 Cont(next, rq) == [next |-> next, rq |-> rq, r |-> NoResp]
 Fin(rq, r) == [next |-> "done", rq |-> rq, r |-> r]
 
-\* rq = [m, w, raw (segments of URL.EscapedPath()), dec (segments of URL.Path),
+\* rq = [m, w, h, raw (segments of URL.EscapedPath()), dec (segments of URL.Path),
 \*       rp (segments of chi's RoutePath), op]
-MkRq(m, p, w) == [m |-> m, w |-> w, raw |-> RawSegs(p), dec |-> DecSegs(p), rp |-> RawSegs(p), op |-> NoOp]
+MkRq(m, p, w, h) == [m |-> m, w |-> w, h |-> h, raw |-> RawSegs(p), dec |-> DecSegs(p), rp |-> RawSegs(p), op |-> NoOp]
 
 EmbT == {Tpl(EmbOrder[i]) : i \in DOMAIN EmbOrder}
 OpsAt(name, m) == {o \in Range(EmbOps) : o.path = name /\ o.method = m}
@@ -164,8 +187,10 @@ StripPrefix(rq) ==
 (* embedded document (UseEncodedPath: matches URL.EscapedPath(); "{x}"     *)
 (* is [^/]+; the first path that matches decides, a method it does not     *)
 (* declare is "method not allowed"), then openapi3filter.ValidateRequest   *)
-(* (path parameters in declaration order; our request body is a valid      *)
-(* DecryptionTrigger).  Every failure is answered 400.                     *)
+(* (path parameters in declaration order, then the request body of an      *)
+(* operation that declares one: present and of a listed media type; the    *)
+(* body the harness sends is a valid DecryptionTrigger).  Every failure is *)
+(* answered 400.                                                           *)
 (***************************************************************************)
 GMatch(t, raw) ==
     /\ Len(raw) = Len(t.segs)
@@ -181,10 +206,13 @@ Validator(rq) ==
             ELSE LET o == CHOOSE x \in ops : TRUE
                      bad == {j \in DOMAIN o.params : rq.raw[ParamIdx(t, o.params[j])] # ParamVal[o.params[j]]}
                  IN IF bad # {} THEN {Fin(rq, Resp(400, "None", ParamBk[o.params[MinOf(bad)]], "validator"))}
+                    ELSE IF o.body # "none" /\ (~rq.h.body \/ rq.h.ctype \notin JsonCtypes)
+                         THEN {Fin(rq, Resp(400, "None", "request_body_has", "validator"))}
                     ELSE {Cont("mw", rq)}
 
 (***************************************************************************)
-(* kproapi/middleware.go                                                   *)
+(* kproapi/middleware.go  (reads r.URL.Path, r.Method and the setting; no   *)
+(* header; every refusal ends the request: http.Error + return)            *)
 (***************************************************************************)
 \* isReadOnlyEndpoint: the extension is a json.RawMessage whose text is "true" (or a Go bool true)
 IsReadOnlyEndpoint(o) == o.ro = "true"
@@ -248,7 +276,9 @@ Wrapper(rq) ==
 (***************************************************************************)
 Handler(rq) ==
     LET e == EffectOf[rq.op.op] IN
-    CASE e = "Pong" -> {Fin(rq, Resp(200, "Pong", "pong", "handler"))}
+    CASE e = "Trigger" /\ ~rq.h.body -> \* only without the validator: json.Decode fails, sendError(400)
+                {Fin(rq, Resp(400, "Other", "__code__400__mes", "handler"))}
+      [] e = "Pong" -> {Fin(rq, Resp(200, "Pong", "pong", "handler"))}
       [] e \in {"Shutdown", "Trigger"} -> {Fin(rq, Resp(200, e, "", "handler"))}
       [] OTHER -> {Fin(rq, Resp(0, e, "*", "handler"))}
 
@@ -264,8 +294,8 @@ Step(stage, rq) ==
 RECURSIVE Run(_, _)
 Run(stage, rq) == UNION { IF x.next = "done" THEN {x.r} ELSE Run(x.next, x.rq) : x \in Step(stage, rq) }
 
-\* every response the code may give to method m, path p with write operations w
-Serve(m, p, w) == Run("outer", MkRq(m, p, w))
+\* every response the code may give to method m, path p, headers/body h with write operations w
+Serve(m, p, w, h) == Run("outer", MkRq(m, p, w, h))
 
 (***************************************************************************)
 (* Named alternative (not the code): a gate that matched the RAW path the  *)
